@@ -107,6 +107,9 @@ func (st *State) resolveType(pkgPath, s string) types.Type {
 		return tReal
 	}
 	s = strings.ReplaceAll(s, "chanstruct{}", "chan struct{}")
+	if strings.HasPrefix(s, "chan") && len(s) > 4 && s[4] != ' ' && !strings.HasPrefix(s, "chan.") {
+		s = "chan " + s[4:] // the contract tokenizer drops the blank in "chan T"
+	}
 	ex, err := parser.ParseExpr(s)
 	if err != nil {
 		st.unsupported("cannot parse type %q: %v", s, err)
@@ -319,6 +322,8 @@ func (st *State) elabField(env *Env, v SVal, t types.Type, name string) (SVal, t
 			return sv.Len, tInt
 		case "base":
 			return sv.Base, tInt
+		case "cap":
+			return sv.Cap, tInt
 		}
 	}
 	if iv, ok := v.(*IfaceV); ok {
